@@ -680,12 +680,26 @@ class Gen:
             head = 'function %s %s(%s)' % (rty, name, ', '.join('%s %s' % (t, p) for t, p in zip(ptys, params)))
         return head + ' {\n  ' + '\n  '.join(body) + '\n}\n', nparams
 
-    def spillfunc(self, name, callee):
+    def spillprogram(self, seq):
+        """dedicated spill-forcing program: one callee and one function with 10-13 values live across the call"""
+        t = self.rng.choice(self.types)
+        kw = '' if self.lang == 'c' else 'function '
+        head = '' if self.lang == 'c' else 'module s%d;\n' % seq
+        save, self.types = self.types, [t]
+        try:
+            # xtensa cannot address far spill slots: keep the number of spills moderate there
+            lo, hi = (6, 9) if self.march == 'xtensa' else (10, 13)
+            body = self.spillfunc('sp%d' % seq, ('spcal%d' % seq, 2), nv=self.rng.randint(lo, hi))
+        finally:
+            self.types = save
+        return head + '%s%s spcal%d(%s a, %s b) { return a + b; }\n' % (kw, t, seq, t, t) + body
+
+    def spillfunc(self, name, callee, nv=None):
         """many values live across a call: forces spills (all targets, incl. two-instruction spill stores)"""
         r = self.rng
         t = r.choice(self.types)
         cname, cn = callee
-        nv = r.randint(6, 11)
+        nv = nv or r.randint(6, 11)
         names = ['t%d' % k for k in range(nv)]
         lines = []
         if self.lang == 'c':
@@ -944,6 +958,23 @@ def collect_frames(ctx, cap, budget_frames, targets):
             if err:
                 fails.setdefault(march, {}).setdefault(err.split(':')[0], 0)
                 fails[march][err.split(':')[0]] += 1
+        wanted_spilled = 0 if march == 'arm:thumb' else (2 if ctx.quick() else 6)   # thumb: allocator too slow under pressure
+        got_spilled = 0
+        for _ in range(wanted_spilled * 3):
+            if got_spilled >= wanted_spilled:
+                break
+            seq += 1
+            src = g.spillprogram(seq)
+            before = len(cap.frames)
+            err = compile_program(march, g.lang, src, 2)
+            nprog += 1
+            for fr in cap.frames[before:]:
+                fr.update({'march': march, 'opt': 2, 'src_seq': seq, 'src': src, 'family': 'spill'})
+                if fr['n_rounds'] > 1:
+                    got_spilled += 1
+            if err:
+                fails.setdefault(march, {}).setdefault(err.split(':')[0], 0)
+                fails[march][err.split(':')[0]] += 1
         if march in LONG_TARGETS:
             for _ in range(1 if ctx.quick() else 4):
                 seq += 1
@@ -989,7 +1020,7 @@ def entry_witness(rec):
                 return {'what': 'a virtual register is read before any instruction has written it',
                         'register': str(v), 'colour': list(rec['color'].get(v, ())),
                         'reading_instruction': prog[k]['txt'], 'instruction_index': k,
-                        'path_from_entry': path[:6] + (['...'] if len(path) > 12 else []) + path[-6:],
+                        'path_from_entry': path if len(path) <= 12 else path[:6] + ['...'] + path[-6:],
                         'next_instructions': [i['txt'] for i in prog[k + 1:k + 3]]}
             if v in prog[k]['defs']:
                 continue
@@ -1145,6 +1176,11 @@ def run(ctx):
         if f.get('spill_seq_max', 0) >= 2:
             multi[f.get('march')] = multi.get(f.get('march'), 0) + 1
     ctx.cov['stages']['frames_with_multi_instruction_spill_code'] = multi
+    sp = {}
+    for f in frames:
+        if f.get('family') == 'spill' and f['n_rounds'] > 1:
+            sp[f.get('march')] = sp.get(f.get('march'), 0) + 1
+    ctx.cov['stages']['spill_family_frames_that_spilled'] = sp
     longf = [f for f in frames if f.get('family') == 'long']
     ctx.cov['stages']['long_function_frames'] = [
         {'target': f.get('march'), 'instructions': len(last_round(f)),
